@@ -192,9 +192,33 @@ def k24_eligible(case):
     return False
 
 
+def k28_sides(case):
+    """input predicate of finding K28: the sides B whose event stream carries the *echo* of a folder rename made by the
+    user of side A = 1-B, when A later deletes / renames something below the renamed folder.  If B's stream is delivered
+    late, the echo (children of the folder 'moved' on B) arrives after A's later change and is taken for a user's rename on
+    B: A's deletion is undone."""
+    out = set()
+    for a in (0, 1):
+        targets = []
+        for e in case["sched"]:
+            if e[0] != "U" or e[1]["side"] != a:
+                continue
+            op = e[1]
+            if op["op"] in ("delete", "rmdir", "rename", "rendir") and any(op["path"].startswith(t + "/") for t in targets):
+                out.add(1 - a)
+            if op["op"] == "rendir":
+                targets.append(op["to"])
+    return out
+
+
+def k28_eligible(case):
+    return any(set(case["manglers"][b]) & set(MANGLERS_STABLE) for b in k28_sides(case))
+
+
 def make(seed, i, flavours, seek=False):
     if seek:
-        case = F.make_case(seed, PROP + "seek", i, families=("REUSE0", "REUSE1"), flavours=("oo", "of", "fo", "po", "op"))
+        case = F.make_case(seed, PROP + "seek", i, families=("REUSE0", "REUSE1", "ONE0", "ONE1", "DISJ"),
+                           flavours=("oo", "of", "fo", "po", "op"))
     else:
         case = F.make_case(seed, PROP, i, flavours=flavours)
     rng = random.Random("%s:C14m:%d" % (seed, i))
@@ -204,8 +228,10 @@ def make(seed, i, flavours, seek=False):
     # places a moved folder back at its old path makes the engine write that folder's entry off when another folder is
     # created there (finding K24)
     stable_ok = seek or not case["family"].startswith("REUSE")
+    echo_sides = set() if seek else k28_sides(case)     # no late delivery of a folder-rename echo in the main round (K28)
     for side in (0, 1):
-        pool = list(MANGLERS_ALL) + (list(MANGLERS_STABLE) if case["flavour"][side] != "p" and stable_ok else [])
+        pool = list(MANGLERS_ALL) + (list(MANGLERS_STABLE) if case["flavour"][side] != "p" and stable_ok
+                                     and side not in echo_sides else [])
         kinds.append(sorted(rng.sample(pool, rng.randrange(1, 4))))
     case["manglers"] = kinds
     # manual walks interleaved
@@ -374,6 +400,9 @@ def shard(ctx, acc):
             if k24_eligible(case):
                 acc.count("seek_failures_attributed_K24")
                 acc.known_hit("K24", dict(W.brief_case(case), manglers=case["manglers"]))
+            elif k28_eligible(case):
+                acc.count("seek_failures_attributed_K28")
+                acc.known_hit("K28", dict(W.brief_case(case), manglers=case["manglers"]))
             else:
                 acc.violation("seek:" + probs[0][0], probs[:4], case)
 
